@@ -385,7 +385,10 @@ func (store *HStore) Set(ki *KeyInfo, p *Payload) error {
 	bkt := store.buckets[ki.BucketID]
 	atomic.AddInt64(&bkt.NumSet, 1)
 	if bkt.State != BUCKET_STAT_READY {
-		cmem.DBRL.SetData.SubSizeAndCount(p.CArray.Cap)
+		if p.Ver >= 0 {
+			// only a value buffer is counted in SetData; a delete carries none
+			cmem.DBRL.SetData.SubSizeAndCount(p.CArray.Cap)
+		}
 		p.CArray.Free()
 		return nil
 	}
